@@ -160,7 +160,7 @@ NumRel(op, a, b) == CASE op = "=" -> a = b [] op = "!=" -> a # b [] op = "<" -> 
                       [] op = ">" -> a > b [] op = ">=" -> a >= b
 
 RECURSIVE Sel2(_, _, _, _), Ev2(_, _, _, _), DoPred(_, _, _, _, _), FollLoop2(_, _, _, _), PrecLoop2(_, _, _, _),
-          DodLoop2(_, _, _, _, _, _), Drain2(_, _, _, _, _), CmpLoop(_, _, _, _, _, _, _), PrecNextRoot2(_, _, _, _), UDrain(_, _, _, _, _, _), CountLoop(_, _, _, _, _), VmArgStr(_, _, _)
+          DodLoop2(_, _, _, _, _, _), Drain2(_, _, _, _, _), CmpLoop(_, _, _, _, _, _, _), PrecNextRoot2(_, _, _, _), UDrain(_, _, _, _, _, _), CountLoop(_, _, _, _, _), VmArgStr(_, _, _), NSOuter(_, _, _, _, _), NSInner(_, _, _, _, _, _)
 
 \* preceding (non-sibling): like PrecNextRoot but the position counter restarts when climbing
 PrecNextRoot2(d, node, ops, posit) ==
@@ -222,6 +222,23 @@ CmpLoop(q, st, g, x, op, w, swap) ==
     IN IF r.n = 0 THEN V2([k |-> "b", v |-> FALSE], r.st, r.ops)
        ELSE IF CmpHit(op, StringValue(g.d, r.n), w, swap) THEN V2([k |-> "b", v |-> TRUE], r.st, r.ops)
        ELSE CmpLoop(q, r.st, g, [x EXCEPT !.ops = r.ops], op, w, swap)
+
+\* cmpNodeSetNodeSet (= and != only: string comparison): for every node x of the left operand the right operand is walked
+\* until a pair satisfies op; after an unsuccessful inner walk the right operand is RESET by Evaluate; an empty right
+\* operand ends the comparison at once.  lr = [l, r] operand states; returns [v, lr, ops]
+NSInner(q, lr, g, x, sx, y) ==
+    IF (IF q.op = "=" THEN sx = StringValue(g.d, y.n) ELSE sx # StringValue(g.d, y.n)) THEN [hit |-> TRUE, r |-> y.st, ops |-> y.ops]
+    ELSE LET y2 == Sel2(q.r, y.st, g, [x EXCEPT !.ops = y.ops])
+         IN IF y2.n = 0 THEN [hit |-> FALSE, r |-> y2.st, ops |-> y2.ops] ELSE NSInner(q, lr, g, x, sx, y2)
+NSOuter(q, lr, g, x, dummy) ==
+    LET a == Sel2(q.l, lr.l, g, x)
+    IN IF a.n = 0 THEN [v |-> FALSE, lr |-> [lr EXCEPT !.l = a.st], ops |-> a.ops]
+       ELSE LET y == Sel2(q.r, lr.r, g, [x EXCEPT !.ops = a.ops])
+            IN IF y.n = 0 THEN [v |-> FALSE, lr |-> [l |-> a.st, r |-> y.st], ops |-> y.ops]
+               ELSE LET in == NSInner(q, lr, g, x, StringValue(g.d, a.n), y)
+                    IN IF in.hit THEN [v |-> TRUE, lr |-> [l |-> a.st, r |-> in.r], ops |-> in.ops]
+                       ELSE LET ev == Ev2(q.r, in.r, g, [x EXCEPT !.ops = in.ops])
+                            IN NSOuter(q, [l |-> a.st, r |-> ev.st], g, [x EXCEPT !.ops = ev.ops], dummy)
 
 \* Evaluate: reset and/or compute.  x = [c |-> context node, ops]
 Ev2(q, st, g, x) ==
@@ -297,6 +314,9 @@ Ev2(q, st, g, x) ==
               THEN V2([k |-> "b", v |-> IF q.op = "=" THEN m.v.v = n.v.v ELSE m.v.v # n.v.v], s1, n.ops)
               ELSE IF m.v.k = "n" /\ n.v.k = "n"
               THEN V2([k |-> "b", v |-> NumRel(q.op, m.v.v, n.v.v)], s1, n.ops)
+              ELSE IF m.v.k = "q" /\ n.v.k = "q" /\ q.op \in {"=", "!="}
+              THEN LET c == NSOuter(q, [l |-> m.st, r |-> n.st], g, [x EXCEPT !.ops = n.ops], 0)
+                   IN V2([k |-> "b", v |-> c.v], [s1 EXCEPT !.l = c.lr.l, !.r = c.lr.r], c.ops)
               ELSE V2([k |-> "err", v |-> "outside the modelled fragment"], s1, n.ops)
       [] q.t = "boolean" ->
            LET m == Ev2(q.l, st.l, g, x)
